@@ -1,10 +1,13 @@
 // Package txguard binds spec/TxGuard.tla (generator) and spec/TraceTxGuard.tla (judge) to the real replay cache
 // chain/txpool.TxGuard (C04 layer 1).  universe.go builds the REAL signed transactions shared with the
-// replayprot adapter (C04 layer 2): one payload in two signature encodings, a box around it, an unrelated tx.
+// replayprot adapter (C04 layer 2): one payload in two signature encodings, boxes around it, an unrelated tx.
+// carrier.go writes the box payloads in the carrier encodings the specs name.
 package txguard
 
 import (
 	"crypto/ecdsa"
+	"fmt"
+	"strings"
 	"math/big"
 
 	"github.com/LemoFoundationLtd/lemochain-core/chain/params"
@@ -21,12 +24,16 @@ type Universe struct {
 	Tx      map[string]*types.Transaction
 	IDs     []string
 	Subs    map[string][]string
-	Payload map[string]string // id -> id of the first transaction with the same SIGNED content (sign hash) and the same signers
+	Payload map[string]string // id -> id of the first transaction with the same SENDER-SIGNED content (the hash the sender signed)
+	How     map[string]string // id -> how it differs from that first one: "" (it is the first), "sig" (signature bytes), "add" (a signature was appended), "gas" (what its gas payer filled in)
 	Exp     map[string]int64  // absolute expiration
+	Enc     map[string]map[string]*types.Transaction // box id -> carrier encoding -> the box with its payload written that way
+	Cross   map[common.Hash]common.Hash              // identity of a transaction -> identity of ANOTHER one (carrier encoding "k")
 }
 
 func NewUniverse() *Universe {
-	return &Universe{Tx: map[string]*types.Transaction{}, Subs: map[string][]string{}, Payload: map[string]string{}, Exp: map[string]int64{}}
+	return &Universe{Tx: map[string]*types.Transaction{}, Subs: map[string][]string{}, Payload: map[string]string{}, How: map[string]string{}, Exp: map[string]int64{},
+		Enc: map[string]map[string]*types.Transaction{}, Cross: map[common.Hash]common.Hash{}}
 }
 
 func mustSign(tx *types.Transaction, key *ecdsa.PrivateKey) *types.Transaction {
@@ -73,6 +80,12 @@ func Reencode(tx *types.Transaction) *types.Transaction {
 	return Wire(cpy)
 }
 
+// ExtraSig returns tx with one more signature appended: key signs the very hash the sender signed.  Other transaction hash, same
+// sender-signed payload; the first signature is still the sender's.
+func ExtraSig(tx *types.Transaction, key *ecdsa.PrivateKey) *types.Transaction {
+	return Wire(mustSign(tx, key))
+}
+
 // Wire is the RLP round trip of a transaction.
 func Wire(tx *types.Transaction) *types.Transaction {
 	buf, err := rlp.EncodeToBytes(tx)
@@ -86,8 +99,37 @@ func Wire(tx *types.Transaction) *types.Transaction {
 	return nt
 }
 
+// senderSigner is the signer the SENDER of tx used: a reimbursement transaction (gas payer signatures present) is signed by its
+// sender without gasPrice / gasLimit.
+func senderSigner(tx *types.Transaction) types.Signer {
+	if len(tx.GasPayerSigs()) > 0 {
+		return types.MakeReimbursementTxSigner()
+	}
+	return types.MakeSigner()
+}
+
+// Repriced builds reimbursement transaction msg (sender key signs once, without gas fields) and lets the gas payer price and sign
+// it once per gas limit: the results share the sender-signed content and the sender's signature.
+func Repriced(key, payerKey *ecdsa.PrivateKey, to common.Address, amount *big.Int, exp uint64, chainID uint16, msg string, gasLimits ...uint64) []*types.Transaction {
+	from, payer := crypto.PubkeyToAddress(key.PublicKey), crypto.PubkeyToAddress(payerKey.PublicKey)
+	raw := types.NewReimbursementTransaction(from, to, payer, amount, nil, params.OrdinaryTx, chainID, exp, "", msg)
+	signed, err := types.MakeReimbursementTxSigner().SignTx(raw, key)
+	if err != nil {
+		panic(err)
+	}
+	var out []*types.Transaction
+	for _, gl := range gasLimits {
+		tx, err := types.MakeGasPayerSigner().SignTx(types.GasPayerSignatureTx(signed.Clone(), big.NewInt(1000000000), gl), payerKey)
+		if err != nil {
+			panic(err)
+		}
+		out = append(out, Wire(tx))
+	}
+	return out
+}
+
 func signersOf(tx *types.Transaction) string {
-	as, err := types.DefaultSigner{}.GetSigners(tx)
+	as, err := senderSigner(tx).GetSigners(tx)
 	if err != nil {
 		return "error:" + err.Error()
 	}
@@ -99,7 +141,8 @@ func signersOf(tx *types.Transaction) string {
 }
 
 // Add registers a transaction.  Its payload class is derived from the real transaction: the hash the sender signed
-// (DefaultSigner.Hash) together with the recovered signers; two ids in one class are two encodings of one signed payload.
+// (senderSigner(tx).Hash; it names the sender); two ids in one class are two transactions with one sender-signed payload.  Every
+// registered transaction carries its sender's valid signature first.
 func (u *Universe) Add(id string, tx *types.Transaction, subs ...string) {
 	for _, o := range u.IDs {
 		if u.Tx[o].Hash() == tx.Hash() {
@@ -113,10 +156,20 @@ func (u *Universe) Add(id string, tx *types.Transaction, subs ...string) {
 	u.Subs[id] = subs
 	u.Exp[id] = int64(tx.Expiration())
 	u.Payload[id] = id
-	sh, sg := types.DefaultSigner{}.Hash(tx), signersOf(tx)
+	u.How[id] = ""
+	sh := senderSigner(tx).Hash(tx)
+	if sg := signersOf(tx); strings.HasPrefix(sg, "error:") || !strings.HasPrefix(sg, tx.From().Hex()+",") {
+		engine.Failf("transaction %s: the first signature is not its sender's (%s)", id, sg)
+	}
 	for _, o := range u.IDs {
-		if (types.DefaultSigner{}).Hash(u.Tx[o]) == sh && signersOf(u.Tx[o]) == sg {
+		if senderSigner(u.Tx[o]).Hash(u.Tx[o]) == sh {
 			u.Payload[id] = u.Payload[o]
+			u.How[id] = "gas"
+			if len(u.Tx[o].Sigs()) != len(tx.Sigs()) {
+				u.How[id] = "add"
+			} else if fmt.Sprint(u.Tx[o].Sigs()) != fmt.Sprint(tx.Sigs()) {
+				u.How[id] = "sig"
+			}
 			break
 		}
 	}
@@ -137,13 +190,22 @@ func (u *Universe) Txs(ids []string) types.Transactions {
 	return out
 }
 
-// Standard builds t, t2 (= t re-encoded), b = box(t), u with the given absolute expirations.
-func Standard(sender, boxer *ecdsa.PrivateKey, to common.Address, amount *big.Int, chainID uint16, expT, expB, expU uint64) *Universe {
+// SetCross makes carrier encoding "k" name a as b and b as a.
+func (u *Universe) SetCross(a, b string) {
+	u.Cross[u.Tx[a].Hash()] = u.Tx[b].Hash()
+	u.Cross[u.Tx[b].Hash()] = u.Tx[a].Hash()
+}
+
+// Standard builds t, t2 (= t re-encoded), u, b = box(t) by boxer, w = another box(t) by sender, with the given absolute
+// expirations; the boxes in every carrier encoding of encs.
+func Standard(sender, boxer *ecdsa.PrivateKey, to common.Address, amount *big.Int, chainID uint16, expT, expB, expU uint64, encs []string) *Universe {
 	u := NewUniverse()
 	t := Transfer(sender, to, amount, expT, chainID, "t")
 	u.Add("t", t)
 	u.Add("t2", Reencode(t))
-	u.Add("b", Box(boxer, expB, chainID, "b", t), "t")
 	u.Add("u", Transfer(sender, to, new(big.Int).Add(amount, big.NewInt(1)), expU, chainID, "u"))
+	u.SetCross("t", "u")
+	u.AddBox("b", boxer, expB, chainID, encs, "t")
+	u.AddBox("w", sender, expB, chainID, encs, "t")
 	return u
 }
